@@ -399,17 +399,33 @@ for _c in CG_SITES:
     SITE_ALSO['cg_' + _c[0]] = ['C07']
 
 
+_VT = {'types': None}
+
+
 def _vexpr(node, subst, used):
     """(Lean term, 'K' | 'V'); `subst` inlines local aliases such as residual_flat = residual.flatten()"""
     U = py2lean.Untranslatable
+    types = _VT['types'] or CG_TYPES
     if isinstance(node, ast.Name):
         if node.id in subst:
             used.extend(subst[node.id][2])
             return subst[node.id][:2]
-        if node.id in CG_TYPES:
+        if node.id in types:
             used.append(node.id)
-            return node.id, CG_TYPES[node.id]
+            return node.id, types[node.id]
         raise U(f'name {node.id}')
+    if isinstance(node, ast.Call) and ast.unparse(node.func) == 'torch.linalg.vector_norm' and len(node.args) == 1 \
+            and sorted(ast.unparse(k) for k in node.keywords) == ['dim=dim', 'keepdim=True']:
+        a, ta = _vexpr(node.args[0], subst, used)
+        if ta != 'V':
+            raise U('vector_norm of a scalar')
+        return f'(sqrt (ops.dot {a} {a}))', 'K'  # the 2-norm over the dims of one operator
+    if isinstance(node, ast.Call) and ast.unparse(node.func) == 'self.adjoint' and len(node.args) == 1 and isinstance(node.args[0], ast.Starred) \
+            and isinstance(node.args[0].value, ast.Call) and ast.unparse(node.args[0].value.func) == 'self' and len(node.args[0].value.args) == 1:
+        a, ta = _vexpr(node.args[0].value.args[0], subst, used)
+        if ta != 'V':
+            raise U('operator applied to a scalar')
+        return f'(G {a})', 'V'  # self.adjoint(*self(v)) = (A^H A) v
     if isinstance(node, ast.Attribute) and node.attr == 'real':
         t, ty = _vexpr(node.value, subst, used)
         if ty != 'K':
@@ -448,6 +464,8 @@ def _vexpr(node, subst, used):
             raise U('product of vectors')
         if isinstance(node.op, ast.Div) and (ta, tb) == ('K', 'K'):
             return f'({a} / {b})', 'K'
+        if isinstance(node.op, ast.Div) and (ta, tb) == ('V', 'K'):
+            return f'(ops.smul ((1 : K) / {b}) {a})', 'V'
     raise U(f'expression {ast.unparse(node)[:50]}')
 
 
@@ -517,6 +535,90 @@ def translate_cg():
             out.append(f'/-- FALLBACK (source outside the translatable fragment: {why[:100]}): the hand-written model -/\n'
                        f'def cg_{lname} (ops : M.VecOps K V) (H : V → V) {sig} : {ty} :=\n  {fb}\ndef cg_{lname}_translated : Bool := false')
             status['cg_' + lname] = f'fallback: {why}'
+    return '\n\n'.join(out), status
+
+
+# ---- power iteration of `LinearOperator.operator_norm` (C19) ----------------------------------------------------------
+PI_TYPES = {'initial_value': 'V', 'norm_initial_value': 'K', 'vector': 'V', 'vector_new': 'V', 'op_norm': 'K', 'op_norm_old': 'K'}
+# the estimate <v, G v> is written as three statements on real and imaginary parts (the real inner product of the real embedding);
+# they are pinned as source text and stand for `op_norm = sqrt(ops.dot vector vector_new)`
+PI_ESTIMATE = ['product = vector.real * vector_new.real',
+               'if vector.is_complex() and vector_new.is_complex():\n    product += vector.imag * vector_new.imag',
+               'op_norm = product.sum(dim, keepdim=True).sqrt()']
+PI_SITES = [
+    ('norm0', 'norm_initial_value', ['initial_value'], 'K', 'sqrt (ops.dot initial_value initial_value)', 'pre'),
+    ('start', 'vector', ['initial_value', 'norm_initial_value'], 'V', 'ops.smul ((1 : K) / norm_initial_value) initial_value', 'pre'),
+    ('apply', 'vector_new', ['vector'], 'V', 'G vector', 'loop'),
+    ('estimate', 'op_norm', ['vector', 'vector_new'], 'K', 'sqrt (ops.dot vector vector_new)', 'loop'),
+    ('normalise', 'vector', ['vector_new'], 'V', 'ops.smul ((1 : K) / (sqrt (ops.dot vector_new vector_new))) vector_new', 'loop'),
+    ('old', 'op_norm_old', ['op_norm'], 'K', 'op_norm', 'loop'),
+]
+for _c in PI_SITES:
+    SITE_PROPS['pi_' + _c[0]] = 'C19'
+
+
+def translate_power_iteration():
+    U = py2lean.Untranslatable
+    found, order, err = {}, [], None
+    _VT['types'] = PI_TYPES
+    try:
+        tree = ast.parse((SRC / 'operators/LinearOperator.py').read_text())
+        fn = _find(tree, 'LinearOperator', 'operator_norm')
+        loops = [st for st in fn.body if isinstance(st, ast.For)]
+        if len(loops) != 1:
+            raise U('expected exactly one for loop')
+        pre = fn.body[:fn.body.index(loops[0])]
+        body = list(loops[0].body)
+        texts = [ast.unparse(st) for st in body]
+        est = [ast.unparse(ast.parse(t).body[0]) for t in PI_ESTIMATE]
+        at = next((i for i in range(len(texts)) if texts[i:i + 3] == est), None)
+        if at is None:
+            raise U('the three statements of the estimate <v, G v> were rewritten')
+        for where, stmts in (('pre', pre), ('loop', body)):
+            for idx, st in enumerate(stmts):
+                if where == 'loop' and at <= idx < at + 3:
+                    if idx == at + 2:
+                        found[('loop', 'op_norm')] = ('(sqrt (ops.dot vector vector_new))', ['vector', 'vector_new'], st.lineno)
+                        order.append(('loop', 'op_norm'))
+                    continue
+                if not isinstance(st, ast.Assign) or len(st.targets) != 1:
+                    continue
+                tgt, val = st.targets[0], st.value
+                if isinstance(tgt, ast.Tuple) and len(tgt.elts) == 1:
+                    tgt = tgt.elts[0]
+                if not isinstance(tgt, ast.Name) or tgt.id not in PI_TYPES:
+                    continue
+                if tgt.id == 'op_norm_old' and where == 'pre':
+                    if not ast.unparse(val).startswith('torch.zeros('):
+                        raise U('initial op_norm_old is not zero')
+                    continue
+                used = []
+                term, ty = _vexpr(val, {}, used)
+                if PI_TYPES[tgt.id] != ty:
+                    raise U(f'assignment to {tgt.id} of type {ty}')
+                found[(where, tgt.id)] = (term, used, st.lineno)
+                order.append((where, tgt.id))
+        want = [(w, t) for _, t, _, _, _, w in PI_SITES]
+        if order != want:
+            raise U(f'assignments in the order {order}, expected {want}')
+    except (U, OSError, SyntaxError, ValueError) as e:
+        err = str(e)
+    finally:
+        _VT['types'] = None
+    out, status = [], {}
+    for lname, tgt, params, ty, fb, where in PI_SITES:
+        sig = ' '.join(f'({p_} : {PI_TYPES[p_]})' for p_ in params)
+        ok = err is None and set(found[(where, tgt)][1]) == set(params)
+        if ok:
+            term, _, line = found[(where, tgt)]
+            out.append(f'/-- translated from `operators/LinearOperator.py:operator_norm` (line {line}): `{tgt} = …` -/\n'
+                       f'def pi_{lname} (ops : M.VecOps K V) (sqrt : K → K) (G : V → V) {sig} : {ty} :=\n  {term}\ndef pi_{lname}_translated : Bool := true')
+            status['pi_' + lname] = 'translated'
+        else:
+            why = err or f'free names {sorted(set(found[(where, tgt)][1]))}, expected {params}'
+            out.append(f'/-- FALLBACK (source outside the translatable fragment: {why[:100]}): the hand-written model -/\n'
+                       f'def pi_{lname} (ops : M.VecOps K V) (sqrt : K → K) (G : V → V) {sig} : {ty} :=\n  {fb}\ndef pi_{lname}_translated : Bool := false')
+            status['pi_' + lname] = f'fallback: {why}'
     return '\n\n'.join(out), status
 
 
@@ -598,7 +700,12 @@ def generate():
     text, st = translate_cg()
     out += [text, '']
     status.update(st)
-    out += ['end CG', '', 'end M.Src', '']
+    out += ['end CG', '', '/-! power iteration of `operator_norm` -/', 'section PowerIter',
+            'variable {K V : Type} [Div K] [OfNat K 1]', 'set_option linter.unusedVariables false', '']
+    text, st = translate_power_iteration()
+    out += [text, '']
+    status.update(st)
+    out += ['end PowerIter', '', 'end M.Src', '']
     return '\n'.join(out), status
 
 
